@@ -7,7 +7,7 @@ from ..flow import GuardMap
 from ..model import AnalysisError, norm
 from .c01 import getmap, calcs, ctor_calls, sign_chain, sign_leaf
 from .c06 import kinds_and_methods
-from .common import dep_closure_at, names_in, guard_requires
+from .common import dep_closure_at, names_in, guard_requires, nocache_rule
 
 STRENGTH = {'zero': 3, 'positive': 2, 'negative': 2, 'non-negative': 1, 'non-positive': 1}
 CTORS = {'MinConstraint': 'min', 'MaxConstraint': 'max', 'MinLengthConstraint': 'min_length', 'MaxLengthConstraint': 'max_length',
@@ -44,6 +44,10 @@ def check(run):
     strong(run, p, km, disc)
     agg(run, p)
     absent(run, p, disc, gmap)
+    lenchars(run, p, disc, gmap)
+    nocache_rule(run, 'C07-NOSHARED', p, ['tdda.constraints.db.drivers', 'tdda.constraints.db.constraints', 'tdda.constraints.baseconstraints'],
+                 'statistics describe the table or frame at hand: no memoising decorator and no class-level container used as a cache in the '
+                 'database handlers or the shared discovery/verification base (such a cache is keyed by name only and shared by every connection)')
 
 
 def thresh(run, p, disc, gmap, gm):
@@ -242,3 +246,17 @@ def absent(run, p, disc, gmap):
                                                                 '' if nonempty else ': also for a field with no values, where the expression list is empty'),
                fn=disc, node=c)
     run.floor('C07-ABSENT', n, 12)
+
+
+def lenchars(run, p, disc, gmap):
+    run.rule('C07-LENCHARS', 'discovered string lengths are counted in characters by Python len() over the (decoded) distinct values, not by a '
+                             'backend length function whose unit differs between backends (bytes, NUL-terminated)')
+    n = 0
+    for cname, agg_ in (('MinLengthConstraint', 'min'), ('MaxLengthConstraint', 'max')):
+        for c in ctor_calls(disc, cname):
+            n += 1
+            clo = dep_closure_at(disc.node, c.args[0], gmap)
+            ok = agg_ in clo and 'len' in clo and 'self.calc_unique_values' in clo and not any(x.startswith('self.calc_') and x.endswith('_length') for x in clo)
+            run.ob('C07-LENCHARS', cname, ok, '%s value derives from %s' % (cname, sorted(x for x in clo if x in ('min', 'max', 'len') or x.startswith('self.calc_'))),
+                   fn=disc, node=c)
+    run.floor('C07-LENCHARS', n, 2)
